@@ -18,7 +18,9 @@ EXTENDS Integers, Sequences, FiniteSets, TLC, Util
 
 CONSTANTS Heights,      \* candidate fork heights (a finite set of naturals)
           MaxBest,      \* chain length bound
-          MaxStarts     \* bound on the number of start attempts
+          MaxStarts,    \* bound on the number of start attempts
+          InPlace       \* FALSE: MakeChainId allocates the child's chain id (the code); TRUE: it overwrites the version
+                        \* prefix in the buffer it was given (the aliasing variant the property excludes; MC_Hardfork_alias.cfg)
 
 Vers == 2..5            \* HardforkConfig has the fields V2..V5
 Cfgs == [Vers -> Heights]
@@ -30,11 +32,18 @@ VARIABLES up,           \* is the node running
           best,         \* best block number
           assigned,     \* 1..best -> version the block was given when it was appended
           rfmt,         \* 1..best -> format its receipts were written in
+          hdr,          \* block h (0..best) -> the buffer that holds the chain id of its header (hdr[h + 1]); blocks held in
+                        \* memory share buffers when MakeChainId returns its argument
+          buf,          \* buffer -> the version prefix it holds now
           starts,
           lastAct
 
-vars == <<up, cfg, db, best, assigned, rfmt, starts, lastAct>>
-view == <<up, cfg, db, best, assigned, rfmt>>
+vars == <<up, cfg, db, best, assigned, rfmt, hdr, buf, starts, lastAct>>
+view == <<up, cfg, db, best, assigned, rfmt, hdr, buf>>
+
+GenesisVer == 0         \* the chain id of the genesis block carries the version of the genesis file
+\* the version the identifier of block h was computed with
+IdVer(h) == IF h = 0 THEN GenesisVer ELSE assigned[h]
 
 \* ------------------------------------------------------------------ the functions of the code
 IsFork(forkHeight, h) == forkHeight <= h                                   \* config/hardfork.go isFork
@@ -50,6 +59,7 @@ Fmt(c, h) == IF IsFork(c[2], h) THEN "v2" ELSE "v1"                        \* Re
 \* ------------------------------------------------------------------ actions
 Init == /\ up = FALSE /\ cfg = [v \in Vers |-> Min(Heights)] /\ db = NoDb /\ best = 0
         /\ assigned = <<>> /\ rfmt = <<>> /\ starts = 0
+        /\ hdr = <<0>> /\ buf = <<GenesisVer>>            \* buffers are numbered from 0: buffer b is buf[b + 1]
         /\ lastAct = [name |-> "Init"]
 
 \* ChainService.checkHardfork at start-up.  FirstStartUnchecked: with an empty record the configuration is written
@@ -63,18 +73,27 @@ StartWith(c, ok) ==
   /\ db' = IF ok THEN c ELSE db                     \* WriteHardfork(config) on every accepted start
   /\ lastAct' = [name |-> "Start", c |-> c, ok |-> ok]
   /\ starts' = starts + 1
-  /\ UNCHANGED <<best, assigned, rfmt>>
+  /\ UNCHANGED <<best, assigned, rfmt, hdr, buf>>
 Start(c) == StartWith(c, Decision(c))
 
 Stop == /\ up /\ up' = FALSE /\ lastAct' = [name |-> "Stop"]
-        /\ UNCHANGED <<cfg, db, best, assigned, rfmt, starts>>
+        /\ UNCHANGED <<cfg, db, best, assigned, rfmt, hdr, buf, starts>>
 
-\* a block is appended with chain-id version ver, its receipts stored in format f (the trace specification takes both from the log)
+\* types.MakeChainId(cid, ver) on the buffer pb of the parent's header chain id (NewBlockHeaderInfoFromPrevBlock in the
+\* block factories, the mempool for every new best block): the buffer itself when it already holds ver, else a NEW buffer
+\* with the prefix replaced.  Returns <<buffer of the child, buffers afterwards>>.
+DeriveChainId(pb, ver) ==
+  IF buf[pb + 1] = ver THEN <<pb, buf>>
+  ELSE IF InPlace THEN <<pb, [buf EXCEPT ![pb + 1] = ver]>>
+  ELSE <<Len(buf), Append(buf, ver)>>
+\* a block is appended with chain-id version ver, its receipts stored in format f (the trace specification takes both from
+\* the log); its header info is derived from the parent block held in memory
 AddBlockWith(ver, f) ==
   /\ up /\ best < MaxBest
   /\ best' = best + 1
   /\ assigned' = Append(assigned, ver)
   /\ rfmt' = Append(rfmt, f)
+  /\ LET d == DeriveChainId(hdr[best + 1], ver) IN hdr' = Append(hdr, d[1]) /\ buf' = d[2]
   /\ lastAct' = [name |-> "AddBlock", no |-> best + 1, ver |-> ver, fmt |-> f]
   /\ UNCHANGED <<up, cfg, db, starts>>
 \* the node: the version is Version(cfg, no), the format follows IsV2Fork(no)
@@ -85,7 +104,8 @@ Spec == Init /\ [][Next]_vars
 
 \* ------------------------------------------------------------------ properties
 TypeOK == /\ up \in BOOLEAN /\ cfg \in Cfgs /\ (db = NoDb \/ db \in Cfgs) /\ best \in 0..MaxBest
-          /\ Len(assigned) = best /\ Len(rfmt) = best
+          /\ Len(assigned) = best /\ Len(rfmt) = best /\ Len(hdr) = best + 1
+          /\ \A i \in 1..Len(hdr) : hdr[i] \in 0..(Len(buf) - 1)
 
 AllHeights == 0..(Max(Heights) + 1)
 \* monotone in the height, for EVERY configuration (also one validate() would refuse)
@@ -98,6 +118,10 @@ VersionStable == up => \A h \in 1..best : Version(cfg, h) = assigned[h]
 ReceiptFormatStable == up => \A h \in 1..best : Fmt(cfg, h) = rfmt[h]
 \* the versions along the chain never decrease
 AssignedMonotone == \A h1, h2 \in 1..best : h1 <= h2 => assigned[h1] <= assigned[h2]
+\* deriving the header info of a child leaves every block held in memory as it was: its header's chain id still holds the
+\* version its identifier was computed with (the header still hashes to the id, the chain id reads back unchanged)
+HeaderMatchesId == \A h \in 0..best : buf[hdr[h + 1] + 1] = IdVer(h)
+ParentUnchangedByChild == [][\A i \in 1..Len(hdr) : buf'[hdr[i] + 1] = buf[hdr[i] + 1] /\ hdr'[i] = hdr[i]]_vars
 \* the record is what the running node uses
 DbIsCfg == up => db = cfg
 \* a refused start changes nothing; the same configuration is always accepted again if it was validated
